@@ -27,9 +27,9 @@ PROP = {'lean_props': ['Comrak.Props.C07'],
                  'fenced/indented code, block quotes, bullet/ordered lists tight/loose, task items, HTML blocks, tables, one referenced footnote; emphasis/strong, '
                  'code spans, links, images, angle autolinks, hard breaks, entities, backslash escapes, strikethrough; text over every Markdown-significant '
                  'character) and the canonical documents of the C03 model, x GFM extensions + footnotes in every combination x list_style x prefer_fenced, with '
-                 'width = 0, ol_width = 0, smart off',
+                 'width = 0, ol_width = 0 or 2..6, smart off',
                  'NOT in the S class (stated restrictions): width > 0 (re-flow moves block markers to line starts and breaks table rows/code spans - covered by '
-                 'K only), ol_width > 0 (padded markers shift item content), smart, text that looks like an extended autolink (www., scheme://, @), `^` `$` `;` '
+                 'K only), ol_width > 6, smart, text that looks like an extended autolink (www., scheme://, @), `^` `$` `;` '
                  'as free text tokens, block quotes inside list items, task items not starting with a paragraph, emphasis adjacent to other inline syntax '
                  'without a space (except the generated direct nestings), non-GFM extensions, hardbreaks, relaxed_*, ignore_*, escaped_char_spans, '
                  'default_info_string, experimental_minimize_commonmark, palette/byte-soup inputs',
